@@ -108,27 +108,63 @@ class _Shard:
         self.scratch = scratch
 
 
+MAX_DEATHS = 5
+
+
 def _run_shard(ctx, scns, tag):
+    """One `go test` process for the scenarios. A panic in the import's own goroutine cannot be recovered by the harness
+    and kills the process: the scenario that was running (progress file) is given that outcome and the rest is run in a
+    new process; after MAX_DEATHS deaths the remaining scenarios of the shard are left out (counted)."""
     d = ctx.sub("c19-" + tag)
-    scn_path, out_path = os.path.join(d, "scn.ndjson"), os.path.join(d, "out.ndjson")
-    with open(scn_path, "w") as f:
-        for s in scns:
-            f.write(json.dumps({k: s[k] for k in ("id", "schema", "src", "dst", "sep", "recs")}) + "\n")
-    r = vlib.go_test_inpkg(_Shard(d), "cmd/csvimport", "zz_verif_csv_test.go", run="TestVerifCsv",
-                           env_extra={"VERIF_C19_SCN": scn_path, "VERIF_C19_OUT": out_path,
-                                      "VERIF_C19_DIR": os.path.join(d, "work"), "VERIF_C19_RENDERS": ",".join(RENDERS)},
-                           timeout=1500)
-    if r.returncode != 0:
-        raise vlib.Undecided("csvimport harness failed (rc=%s):\n%s" % (r.returncode, (r.stdout + r.stderr)[-6000:]))
     res = {}
-    if os.path.exists(out_path):
-        with open(out_path) as f:
-            for line in f:
-                o = json.loads(line)
-                res[o["id"]] = o["r"]
-    if len(res) != len(scns):
-        raise vlib.Undecided("csvimport harness answered %d of %d scenarios\n%s" % (len(res), len(scns), (r.stdout + r.stderr)[-2000:]))
+    remaining = list(scns)
+    deaths = 0
+    rnd = 0
+    while remaining:
+        rnd += 1
+        scn_path, out_path = os.path.join(d, "scn-%d.ndjson" % rnd), os.path.join(d, "out-%d.ndjson" % rnd)
+        with open(scn_path, "w") as f:
+            for s in remaining:
+                f.write(json.dumps({k: s[k] for k in ("id", "schema", "src", "dst", "sep", "recs")}) + "\n")
+        r = vlib.go_test_inpkg(_Shard(d), "cmd/csvimport", "zz_verif_csv_test.go", run="TestVerifCsv",
+                               env_extra={"VERIF_C19_SCN": scn_path, "VERIF_C19_OUT": out_path,
+                                          "VERIF_C19_DIR": os.path.join(d, "work-%d" % rnd), "VERIF_C19_RENDERS": ",".join(RENDERS)},
+                               timeout=1500)
+        if os.path.exists(out_path):
+            with open(out_path) as f:
+                for line in f:
+                    try:
+                        o = json.loads(line)
+                    except ValueError:
+                        continue        # a line cut by the death of the process
+                    res[o["id"]] = o["r"]
+        if r.returncode == 0:
+            break
+        txt = r.stdout + r.stderr
+        cur = None
+        if os.path.exists(out_path + ".cur"):
+            try:
+                cur = int(open(out_path + ".cur").read().strip())
+            except ValueError:
+                cur = None
+        died = [l for l in txt.splitlines() if l.startswith("panic:") or l.startswith("fatal error:")]
+        in_code = any(x in txt for x in ("cmd/csvimport.doBatchInsert", "cmd/csvimport.csvToSql", "mkdb/engine.", "mkdb/storage."))
+        if cur is None or cur in res or not died or not in_code:
+            raise vlib.Undecided("csvimport harness failed (rc=%s):\n%s" % (r.returncode, txt[-6000:]))
+        where = [l.strip() for l in txt.splitlines() if "mkdb/" in l and ".go:" in l][:3]
+        res[cur] = [dict(fail="panic: the import killed the process: %s @ %s" % (died[0][:200], " | ".join(where)[:300]),
+                         outcomes=[], table=[], m=list(RENDERS), csv="")]
+        deaths += 1
+        remaining = [s for s in remaining if s["id"] not in res]
+        if deaths >= MAX_DEATHS:
+            _SKIPPED.append(len(remaining))
+            break
+    if len(res) != len(scns) and deaths < MAX_DEATHS:
+        raise vlib.Undecided("csvimport harness answered %d of %d scenarios" % (len(res), len(scns)))
     return res
+
+
+_SKIPPED = []
 
 
 def run_harness(ctx, scns, tag):
@@ -270,7 +306,11 @@ def run(ctx):
         for name, sub in (("ok_after_err", "eo"), ("ok_err_ok", "oeo"), ("err_after_ok", "oe")):
             if sub in pat:
                 cov["patterns"][name] = cov["patterns"].get(name, 0) + 1
-        runs = results[s["id"]]
+        runs = results.get(s["id"])
+        if runs is None:        # left out after MAX_DEATHS deaths of the import process in its shard
+            cov["not_run_after_process_deaths"] = cov.get("not_run_after_process_deaths", 0) + 1
+            cov["exhaustive"] = False
+            continue
         if "ok" in exp and "err" in exp:
             nontrivial.add((s["config"], runs[0].get("csv", "")))
         for r in runs:
@@ -287,32 +327,45 @@ def run(ctx):
     cov["distinct_nontrivial"] = len(nontrivial)
     cov["mismatches"] = len(bad)
 
-    # vacuity
-    for c in CLASSES:
+    # vacuity (of a complete run)
+    for c in ([] if bad else CLASSES):
         if cov["classes"].get(c, 0) == 0:
             raise vlib.Undecided("vacuous: record class '%s' never exercised" % c)
-    for ty in ("int", "bigint", "varchar", "boolean"):
+    for ty in ([] if bad else ("int", "bigint", "varchar", "boolean")):
         if cov["types_mapped"].get(ty, 0) == 0:
             raise vlib.Undecided("vacuous: no scenario maps a %s column" % ty)
-    for sep in (",", ";", "\t", "|"):
+    for sep in ([] if bad else (",", ";", "\t", "|")):
         if cov["separators"].get(sep, 0) == 0:
             raise vlib.Undecided("vacuous: separator %r never used" % sep)
-    for p in ("ok_after_err", "ok_err_ok", "err_after_ok"):
+    for p in ([] if bad else ("ok_after_err", "ok_err_ok", "err_after_ok")):
         if cov["patterns"].get(p, 0) == 0:
             raise vlib.Undecided("vacuous: no stream with pattern %s" % p)
-    for m in RENDERS:
+    for m in ([] if bad else RENDERS):
         if cov["renderings"].get(m, 0) != len(scns):
             raise vlib.Undecided("rendering %s ran %d of %d scenarios" % (m, cov["renderings"].get(m, 0), len(scns)))
-    if cov["outcomes"]["ok"] == 0 or cov["outcomes"]["err"] == 0 or cov["distinct_nontrivial"] < 2 or not cov["samples"]:
+    if bad:
+        pass
+    elif cov["outcomes"]["ok"] == 0 or cov["outcomes"]["err"] == 0 or cov["distinct_nontrivial"] < 2 or not cov["samples"]:
         raise vlib.Undecided("vacuous: outcomes %r, %d non-trivial scenarios" % (cov["outcomes"], cov["distinct_nontrivial"]))
 
     # DESIGN 5.1: repeat the failing scenarios once from scratch
     if bad:
         uniq = {}
+        killers = 0
         for s, r, sig in bad:
+            if r.get("fail", "").startswith("panic: the import killed the process"):
+                killers += 1
+                if killers > 3:
+                    continue        # each one costs a process; three repeated deaths are confirmation enough
             uniq.setdefault(s["id"], s)
         again = run_harness(ctx, list(uniq.values()), "confirm")
         for s, r, sig in bad:
+            if s["id"] not in again:
+                continue
+            if r.get("fail", "").startswith("panic: the import killed the process"):
+                if not any(r2.get("fail", "").startswith("panic: the import killed the process") for r2 in again[s["id"]]):
+                    raise vlib.Undecided("scenario %d killed the import process once but not when repeated" % s["id"])
+                continue
             same = [r2 for r2 in again[s["id"]] if r2["outcomes"] == r["outcomes"] and r2["table"] == r["table"]
                     and r2.get("fail", "") == r.get("fail", "") and set(r["m"]) <= set(r2["m"])]
             if not same:
